@@ -8,14 +8,14 @@
 (*   got.ea, got.eb   keys under which the real chain stored the answers    *)
 (*                ("" = nothing stored)                                    *)
 (*   got.erra/errb    error of the direct observation, got.ca/cb shouldCache*)
-(* Verdict: MustDiffer (the statement of C43) on the inputs, equality of    *)
-(* the OBSERVED keys.                                                       *)
+(* Verdict: MustDifferIf (the statement of C43) on the inputs and the       *)
+(* OBSERVED cacheability, equality of the OBSERVED keys.                    *)
 (***************************************************************************)
 EXTENDS TraceLib, FrontendKeys
 
 Judge(e) ==
     LET a == e.in.a  b == e.in.b  g == e.got IN
-    IF ~MustDiffer(a, b) THEN {}
+    IF ~MustDifferIf(a, b, g.ca, g.cb) THEN {}     \* both requests are cached by the real frontend
     ELSE (* cacheable requests must get a key at all *)
          (IF g.erra # "" \/ g.errb # "" THEN {"key-generated"} ELSE {})
          \cup
@@ -25,11 +25,11 @@ Judge(e) ==
          \cup
          (IF g.ea # "" /\ g.eb # "" /\ g.ea = g.eb THEN {"stored-keys-differ"} ELSE {})
 
-(* model conformance: the key builders of FrontendKeys predict the exact strings, shouldCache = Cacheable *)
+(* model conformance: the key builders of FrontendKeys predict the exact strings, shouldCache = ShouldCache *)
 DriftOne(x, k, ek, err, c) ==
     \/ err # ""
     \/ k # Key(x, TRUE)
-    \/ c # Cacheable(x)
+    \/ c # ShouldCache(x)
     \/ (ek # "" /\ ek # k)
 Drift(e) == DriftOne(e.in.a, e.got.ka, e.got.ea, e.got.erra, e.got.ca)
             \/ DriftOne(e.in.b, e.got.kb, e.got.eb, e.got.errb, e.got.cb)
